@@ -16,6 +16,10 @@ for d in sorted(glob.glob(os.path.join(ROOT, "seeded", "*"))):
     ok = c.get("build_rc") == 0 and "100% tests passed" in c.get("stable_tests", "") and c.get("demo_on_changed_rc", 0) != 0 and c.get("demo_on_unchanged_rc", 1) == 0
     rc = c.get("our_check_rc")
     verdict = "caught" if rc == 1 else ("MISSED" if rc == 0 else "undecided (rc=%s)" % rc)
+    if m.get("scope_note") and rc != 1:
+        verdict = "not caught - " + re.sub(r"\s+", " ", m["scope_note"])[:400].replace("|", "/")
+    if c.get("our_check", "").split()[1:2] and c.get("our_check", "").split()[1] != sid.split("-")[0]:
+        verdict += " (by " + c["our_check"].split()[1] + ", the check that owns this behaviour)"
     first = (c.get("our_check_output") or [""])[0]
     sig = re.findall(r"\[([^\]]+)\]\s*$", first)
     prev = m.get("previous_runs", [])
@@ -28,7 +32,7 @@ for d in sorted(glob.glob(os.path.join(ROOT, "seeded", "*"))):
     else:
         stats["first_undecided"].append(sid)
     if rc != 1:
-        stats["now_missed"].append(sid)
+        stats["now_missed"].append(sid + (" (out of the property's scope, see its row)" if m.get("scope_note") else ""))
     note = ""
     if prev and any(x.get("our_check_rc") == 0 for x in prev) and rc == 1:
         note = "(first run: MISSED; check strengthened, then re-confirmed)"
